@@ -1,5 +1,5 @@
 \* all spec mutations of DisruptionCond_Weak_*.cfg in one run (see Disruption_WeakAll.cfg)
-CONSTANTS MaxNow = 24  MaxLen = 12  Dedupe = 10  WeakC = "*"
+CONSTANTS MaxNow = 80  MaxLen = 9  MaxEdits = 2  Dedupe = 10  VD = 15  WeakC = "*"
 SPECIFICATION Spec
 VIEW view
 INVARIANTS WeakDetect
